@@ -14,7 +14,7 @@ import pandas as pd
 
 from .. import core
 
-INDEXES = ["range", "offset", "stepped", "datetime", "period", "dup-datetime"]
+INDEXES = ["range", "offset", "stepped", "stepped0", "int64", "datetime", "period", "dup-datetime"]
 
 
 def make_index(kind, n):
@@ -24,6 +24,10 @@ def make_index(kind, n):
         return pd.RangeIndex(7, 7 + n)
     if kind == "stepped":
         return pd.RangeIndex(3, 3 + 5 * n, 5)
+    if kind == "stepped0":  # starts at 0 like the default index, but is not the positions (e.g. `df.iloc[::2]`)
+        return pd.RangeIndex(0, 2 * n, 2)
+    if kind == "int64":  # the positions, but not as a RangeIndex
+        return pd.Index(np.arange(n, dtype=np.int64))
     if kind == "datetime":
         return pd.date_range("2021-03-01", periods=n, freq="h")
     if kind == "period":
@@ -57,8 +61,22 @@ def gen_intervals(rng, n):
 def gen_hand(rng, nmax):
     n = rng.randint(1, nmax)
     kind = rng.choice(["coll", "cp", "sub"])
+    many = rng.random() < 0.02  # hundreds of detections: labels beyond 127 / 255 / 300
+    if many:
+        n = rng.randint(400, 900)
     c = {"kind": kind, "n": n, "index": rng.choice(INDEXES), "columns": rng.choice(["default", "strings", "dup"])}
-    if kind == "coll":
+    if many and kind == "cp":
+        c["cps"] = sorted(rng.sample(range(1, n), rng.randint(130, min(n - 1, 400))))
+    elif many:
+        t, iv = rng.randint(0, 3), []
+        while t < n:
+            e = min(n, t + rng.choice([1, 1, 2, 3]))
+            iv.append((t, e))
+            t = e + rng.choice([0, 0, 1, 2])
+        p = rng.randint(1, 4)
+        c["p"] = p
+        c["anoms"] = iv if kind == "coll" else [(a, b, sorted(rng.sample(range(p), rng.randint(1, p)), key=lambda _: rng.random())) for a, b in iv]
+    elif kind == "coll":
         c["anoms"] = gen_intervals(rng, n)
     elif kind == "cp":
         k = rng.randint(0, min(4, max(0, n - 1)))
